@@ -586,6 +586,8 @@ MODELLED = {
     'glob', 'open', 'read', 'keys', 'items', 'get', 'T', 'flatten', 'nan_to_num', 'bytearray',
 }
 
+PACKAGE_HEADS = set()   # short names of package functions (opaque but known heads)
+
 ODD = {'round', 'trunc', 'sin', 'real', 'imag', 'sum', 'mean', 'int', 'float', 'cumsum', 'median'}
 EVEN = {'abs', 'cos'}
 COMMUTATIVE = {'min', 'max', 'minimum', 'maximum'}
@@ -1002,6 +1004,6 @@ def _compare_flat(a, b):
     aa, ab = all_atoms(a), all_atoms(b)
     only = [x for k, x in aa.items() if k not in ab] + [x for k, x in ab.items() if k not in aa]
     for x in only:
-        if x.kind == 'call' and x.args[0] not in MODELLED:
+        if x.kind == 'call' and x.args[0] not in MODELLED and x.args[0] not in PACKAGE_HEADS:
             return UNDECIDED, f'unmodelled function {x.args[0]} occurs on one side only'
     return DIFFERENT, 'normal forms differ: code - spec = ' + pretty(d)[:400]
